@@ -74,6 +74,10 @@ MUTANTS = [
                                                          "    newest = max(cache_times.values()) if cache_times else -1\n    return any(newest < os.path.getmtime(p) for p in depends)")]),
     ("c17_plugins_through_bytecode_cache", "C17", 1, [(C, "        if path.endswith('.py') and hasattr(spec.loader, 'source_to_code'):",
                                                        "        if False:")]),
+    ("c17_depends_frozen_after_first_load", "C17", 1, [
+        (C, "        _MODULE_DEPENDS[path] = set([path])", "        _MODULE_DEPENDS.setdefault(path, set([path]))"),
+        (C, "            _MODULE_DEPENDS[path].update(_find_sources(path, c_sources))",
+         "            if len(_MODULE_DEPENDS[path]) == 1:\n                _MODULE_DEPENDS[path].update(_find_sources(path, c_sources))")]),
     ("c17_benign_template_ge", "C17", 0, [(GEN, "mtime > _template_cache[filename][0]", "mtime >= _template_cache[filename][0]")]),
     ("c17_benign_always_reload", "C17", 0, [(C, "    return any(cache_times.get(p, None) != os.path.getmtime(p) for p in depends)", "    return True")]),
     ("c11_no_lock", "C11", 1, [(S, '''        with calculation_lock:
